@@ -474,7 +474,7 @@ def big_SetString(ex, st, args, ctx):
         val = go_setstring0(zs.as_string())
         if val is None or val < 0 or val >= (1 << BIG):
             return (NIL, z3.BoolVal(False))
-        big_assign(ex, st, args[0], Big(bvval(val, BIG), cell=-1 if val == 0 else 'auto'))
+        big_assign(ex, st, args[0], Big(bvval(val, BIG)))
         return (args[0], z3.BoolVal(True))
     isnum = uf(ex, 'isNumber_base%d' % base, z3.StringSort(), z3.BoolSort())
     numval = uf(ex, 'numval_base%d' % base, z3.StringSort(), z3.BitVecSort(BIG))
